@@ -428,18 +428,22 @@ def run(ctx):
             "TracerouteReply": acts.get("TracerouteReply", 0), "Forward": acts.get("Forward", 0),
             "authenticated reply": sum(1 for r in recs if _obs_act(r) == "ServeNtp" and r["outs"][0]["auth"] != "absent"),
             "request with wrong MAC": sum(1 for r in recs if r["k"] != "stray" and r["expected"] and not r["macok"]),
-            "client verified": clis["accepted an authenticated reply"], "client rejected": clis["refused a reply with a wrong MAC"],
+            # (guards count what the ENVIRONMENT did - which replies reached the client -, not how the client
+            # reacted: a client that keeps waiting after a forged reply instead of failing is as good)
+            "authentic reply delivered to an authenticating client": sum(
+                1 for r in e2er if r["cauth"] and r["rhasauth"] and r["rexpected"] and r["rmacok"]),
+            "reply with a wrong MAC delivered to an authenticating client": sum(
+                1 for r in e2er if r["cauth"] and r["rhasauth"] and r["rexpected"] and not r["rmacok"]),
             "key regime: served": sum(1 for r in krecs if r["k"] == "key" and r["outs"]),
             "key regime: request under another pair's key": sum(1 for r in krecs if r["k"] == "key" and not r["macok"]),
             "key regime: cached key reused": sum(1 for r in krecs if r["k"] == "key" and r["sn"] and not r["fetches"]),
             "time: live step after an epoch boundary": rec_time["live listener: steps after an epoch boundary"],
-            "time: live request under the previous epoch's key dropped": rec_time[
-                "live listener: request under the previous epoch's key met a cached key of that epoch and was dropped"],
-            "time: fetcher replaced an ended key": rec_time["fetcher: cached key of an ended epoch replaced"],
-            "time: real client accepted an authenticated reply after an epoch boundary": rec_time[
-                "real client after an epoch boundary (listener's cached key ended): accepted an authenticated reply"],
-            "key regime: client verified": sum(1 for r in krecs if r["k"] == "e2e" and r["cli"] == "accept" and r["delivered"]
-                                               and r["rhasauth"] and r["rexpected"] and r["rmacok"])}
+            "time: live request under the previous epoch's key sent while the cache held that epoch's key": sum(
+                1 for r in live if r["cst"] == "prevEpoch" and r["ak"] == "keyPrevEpoch"),
+            "time: real client exchange after an epoch boundary": sum(
+                1 for r in krecs if r["k"] == "e2e" and r["cst"] == "prevEpoch" and not r["amb"]),
+            "key regime: authentic reply delivered to the real client": sum(
+                1 for r in krecs if r["k"] == "e2e" and r["delivered"] and r["rhasauth"] and r["rexpected"] and r["rmacok"])}
     missing = [k for k, v in need.items() if v == 0]
     if not ctx.violations and kgaveup > max(3, knseq // 50):
         raise vlib.Inconclusive("%d of %d key-regime sequences could not be sent within their epochs (machine too slow?)"
